@@ -124,8 +124,9 @@ class ConstantStreamGenerator(Elaboratable):
 
         while in_data:
 
-            # Extract each datum from our stream...
-            datum = in_data[0:datum_width_bytes]
+            # Extract each datum from our stream; a partial final datum is padded, so its bytes sit
+            # in the same byte lanes they'd have in a full word...
+            datum = in_data[0:datum_width_bytes].ljust(datum_width_bytes, b"\0")
             del in_data[0:datum_width_bytes]
 
             # ... convert it into an integer ...
@@ -180,6 +181,17 @@ class ConstantStreamGenerator(Elaboratable):
         on_last_packet  = \
             (position_in_stream          == (data_length - 1)) | \
             (bytes_sent + bytes_per_word >= max_length)
+
+
+        def valid_mask(valid_bytes):
+            """ Returns the valid mask for a word in which only the first ``valid_bytes`` bytes are valid. """
+            lanes = len(self.stream.valid)
+            mask  = (1 << valid_bytes) - 1
+
+            # In big-endian words, the first bytes occupy the most significant byte lanes.
+            if self._endianness == "big":
+                mask <<= (lanes - valid_bytes)
+            return Const(mask, lanes)
 
 
         #
@@ -268,7 +280,7 @@ class ConstantStreamGenerator(Elaboratable):
 
                         # If we're not enforcing a max length, always use our leftover bits-per-word.
                         if not self._max_length_width:
-                            m.d.comb += self.stream.valid.eq(Const(1).replicate(valid_bits_last_word))
+                            m.d.comb += self.stream.valid.eq(valid_mask(valid_bits_last_word))
 
                         # Otherwise, do our complex case.
                         else:
@@ -278,7 +290,7 @@ class ConstantStreamGenerator(Elaboratable):
                             ending_due_to_max_length  = (bytes_sent + bytes_per_word >= max_length)
 
                             # ... and figure out the valid bits based us running out of data...
-                            valid_due_to_data_length  = Const(1).replicate(valid_bits_last_word)
+                            valid_due_to_data_length  = valid_mask(valid_bits_last_word)
 
                             # ... and due to our maximum length. Finding this arithmetically creates
                             # difficult-to-optimize code, and bytes_per_word is going to be small, so
@@ -293,7 +305,7 @@ class ConstantStreamGenerator(Elaboratable):
 
                                     # ... with the appropriate amount of valid bits.
                                     with m.Case(i):
-                                        m.d.comb += valid_due_to_max_length.eq(Const(1).replicate(i))
+                                        m.d.comb += valid_due_to_max_length.eq(valid_mask(i))
 
 
                             # Our most complex logic is when both of our end conditions are met; we'll need
